@@ -23,7 +23,7 @@ RULE = ('cases = generated time-series joins (9 time-condition forms x partition
 ASSUMPTIONS = ['rows are identified by a unique id column', 'among equally recent rows any choice is admissible',
                'for an exact time `ts = v` the output filter may be `=` or `>` (the repository\'s own test pins `>`)',
                'partition columns contain no NULLs']
-BUDGET = {'quick': (8, 90), 'thorough': (16, 600)}
+BUDGET = {'quick': (8, 270), 'thorough': (16, 1800)}
 WINDOW = {'ts1': 3, 'ts0': 2, 'ts2': 4}
 GROUPS = {'ts1': ['g'], 'ts0': [], 'ts2': ['g', 'h']}
 
